@@ -91,6 +91,9 @@ class Report:
         """A case failed its oracle.  attrs: generator-side attributes (dict of str), disc: iterable of
         discrepancy names, replay: self-contained dict for bin/check --replay."""
         disc = sorted(set(disc))
+        if os.environ.get("VERIF_DUMP_FAILS"):
+            with open(os.environ["VERIF_DUMP_FAILS"], "a") as f:
+                f.write(json.dumps({"attrs": attrs, "disc": disc, "what": what}) + "\n")
         ck = (attrs.get("mnemonic", ""), attrs.get("form", ""), attrs.get("width", ""), attrs.get("class", ""),
               ",".join(disc))
         ent = self.classes.get(ck)
